@@ -42,8 +42,37 @@ Reserve(f, r, a) ==
                    !.owner = [i \in 0..(nc - 1) |-> IF i < f.cap THEN f.owner[i] ELSE -1]],
          RResize(r, nc)>>
 
+\* the slab / key-set / state / readiness part of one `insert` (future_group.rs `insert`): <<fs, rd, key>>
+InsertCore(f, r, c) ==
+  LET g == IF f.cap <= GLen(f) THEN Reserve(f, r, f.cap * 2 + 1) ELSE <<f, r>>
+      f1 == g[1]
+      key == IF f1.free # <<>> THEN Head(f1.free) ELSE f1.slen
+      f2 == [f1 EXCEPT !.free = IF f1.free # <<>> THEN Tail(@) ELSE @,
+                       !.slen = IF f1.free # <<>> THEN @ ELSE @ + 1,
+                       !.keys = @ \cup {key}, !.st[key] = "P", !.owner[key] = c]
+  IN <<f2, RSet(g[2], key), key>>
+
 ---------------------------------------------------------------------------
 (* operations of the owner between polls *)
+\* Extend::extend (FutureGroup only): reserve(size_hint upper bound), then insert each; the caller learns no keys
+\* (the harness reports them as -1)
+ExtendOp(cnt) ==
+  /\ pc = "idle" /\ ~IsSG /\ fs.nins + cnt <= cfg.maxIns /\ "maxExt" \in DOMAIN cfg /\ cnt <= cfg.maxExt
+  /\ LET c0 == Cardinality(Ch)
+         g0 == Reserve(fs, rd, cnt)
+         RECURSIVE Many(_, _, _)
+         Many(f, r, i) == IF i = cnt THEN <<f, r>> ELSE LET x == InsertCore(f, r, c0 + i) IN Many(x[1], x[2], i + 1)
+         g == Many(g0[1], g0[2], 0)
+         f2 == [g[1] EXCEPT !.nins = @ + cnt]
+         newc == c0..(c0 + cnt - 1)
+     IN /\ fs' = f2 /\ rd' = g[2]
+        /\ ans' = ans @@ [c \in newc |-> "new"] /\ alive' = alive @@ [c \in newc |-> TRUE]
+        /\ pend' = pend @@ [c \in newc |-> 0] /\ nit' = nit @@ [c \in newc |-> 0] /\ polls' = polls @@ [c \in newc |-> 0]
+        /\ handed' = handed @@ [c \in newc |-> <<>>] /\ firedL' = firedL @@ [c \in newc |-> FALSE]
+        /\ Emit([i \in 1..cnt |-> [e |-> "insert", c |-> c0 + i - 1, key |-> -1]] \o <<EvView(f2)>>)
+  /\ needPoll' = TRUE /\ quiesced' = FALSE
+  /\ UNCHANGED <<cfg, pc, cur, gen, wokenL, started, final, nfire, nstale, nspur, ninfire, seen, conc>>
+
 Insert ==
   /\ pc = "idle" /\ fs.nins < cfg.maxIns
   /\ LET c == Cardinality(Ch)                      \* the new member's child id
@@ -166,7 +195,8 @@ Drop == DropWith(DropEvents)
 ChildPanic == PanicWith(DropEvents)
 
 Next == EnvNext \/ PollBegin \/ ScanStep \/ ChildAnswer \/ ChildPanic \/ Drop
-        \/ Insert \/ (\E a \in 0..(IF TraceMode THEN 8 ELSE 2) : ReserveOp(a)) \/ \E k \in Range(fs.ever) : Remove(k)
+        \/ Insert \/ (\E a \in 0..(IF TraceMode THEN 8 ELSE 2) : ReserveOp(a)) \/ (\E k \in Range(fs.ever) : Remove(k))
+        \/ (\E n \in 1..3 : ExtendOp(n))
 NextLive == Next \/ \E c \in Ch : OwedWake(c)
 Spec == Init /\ [][Next]_vars
 LiveSpec == Init /\ [][NextLive]_vars
